@@ -116,8 +116,27 @@ pub fn evaluate_case(check: &str, scenario: &Arc<Scenario>, sched: &SchedSpec, t
         "C06" => oracle::run_relation_case(scenario, sched, trace, want),
         // With a delegated-safety policy on, stock revm is no reference: path agreement and the
         // fundability invariant decide; with the policies off the block is tied to stock revm.
-        "C13" if scenario.grevm.reserve_delegated_balance || scenario.grevm.forbid_delegated_create => {
-            oracle::run_relation_case(scenario, sched, trace, want)
+        "C13" => {
+            let prague = scenario.evm.spec >= revm_primitives::hardfork::SpecId::PRAGUE;
+            let guard = scenario.grevm.forbid_delegated_create && prague;
+            let reserve = scenario.grevm.reserve_delegated_balance && prague;
+            if guard {
+                oracle::run_relation_case(scenario, sched, trace, want)
+            } else if reserve {
+                // the independent rule model as reference (outcomes, per-commit deltas, bundle), then
+                // path agreement and the fundability invariant
+                let mut a = oracle::run_pipeline_case(scenario, sched, trace.clone(), want);
+                let b = oracle::run_relation_case(scenario, sched, trace, want);
+                a.findings.extend(b.findings);
+                a.stats.decisions += b.stats.decisions;
+                a.stats.steps += b.stats.steps;
+                a.stats.context_switches += b.stats.context_switches;
+                a.stats.preemptions += b.stats.preemptions;
+                a.stats.nontrivial |= b.stats.nontrivial;
+                a
+            } else {
+                oracle::run_pipeline_case(scenario, sched, trace, want)
+            }
         }
         _ => oracle::run_pipeline_case(scenario, sched, trace, want),
     }
@@ -212,6 +231,18 @@ pub fn plan_pipeline_case(check: &str, tier: Tier, seed: u64, idx: u64) -> Plan 
             if rng.chance(1, 4) {
                 scenario.grevm.min_parallel_txs = scenario.txs.len() + 1;
             }
+            // a third of the cases on a persistently faulty database: the elected call may FAIL (on either
+            // path, at any index) and every other call must still be rejected - a failed run is a run
+            if rng.chance(1, 3) {
+                let mut sub = Prng::new(rng.next_u64());
+                let before = scenario.faults.len();
+                let _ = faultgen::add_error_faults(&mut scenario, &mut sub);
+                for f in scenario.faults.iter_mut().skip(before) {
+                    f.mode = crate::scenario::FaultMode::Persistent;
+                }
+                scenario.faults.retain(|f| !matches!(f.key, crate::scenario::FaultKey::Any));
+                group = if n_callers == 1 { "successive-calls/faulty-db" } else { "concurrent-callers/faulty-db" };
+            }
         }
         "C11" => {
             if rng.chance(1, 4) {
@@ -270,7 +301,7 @@ pub fn filter_findings(check: &str, findings: Vec<Finding>) -> (Vec<Finding>, Ve
             "C10" => (f.property == "C10").then_some("C10"),
             "C11" => matches!(f.property, "C01" | "C02" | "C03" | "C04" | "C11").then_some("C11"),
             "C13" => matches!(f.property, "C01" | "C02" | "C03" | "C06" | "C13").then_some("C13"),
-            "C14" => matches!(f.property, "C14" | "C01" | "C02" | "C03").then_some("C14"),
+            "C14" => matches!(f.property, "C14" | "C01" | "C02" | "C03" | "C04").then_some("C14"),
             "C15" => (f.property == "C15").then_some("C15"),
             // a stall of the strict-mode pipeline (progress possible only through a stall timer) is a lost
             // re-offer (C16) or a lost notification (C17); both checks listen to it
